@@ -72,6 +72,10 @@ class MessageData(object):
         """
         if hasattr(self.message_class, 'to_numpy'):
             have_cached_numpy_data = 'p1_time' in self.__dict__
+            if have_cached_numpy_data and len(self.messages) > 0 and not hasattr(self.messages[0], 'p1_time'):
+                # This message type only stores P1 time in its measurement details, so the cached data cannot be checked
+                # against the messages below. Convert again.
+                have_cached_numpy_data = False
             if have_cached_numpy_data:
                 # If we don't have message data we can't do any conversion so the currently cached numpy data is as good
                 # as it's gonna get. If it doesn't exist, so be it.
